@@ -256,10 +256,14 @@ impl QueryNode {
     pub fn lucene_escape(input: &str) -> String {
         let mut output = String::with_capacity(input.len());
         for c in input.chars() {
-            // : + - = && || > < ! ( ) { } [ ] ^ " ~ * ? : \ /
+            // : + - = && || > < ! ( ) { } [ ] ^ " ~ * ? : \ / and the white space that ends a term
             if matches!(
                 c,
-                ':' | '+'
+                ' ' | '\t'
+                    | '\n'
+                    | '\r'
+                    | ':'
+                    | '+'
                     | '-'
                     | '='
                     | '>'
